@@ -13,7 +13,6 @@ import (
 	"time"
 
 	"github.com/arm-doe/sts"
-	"github.com/arm-doe/sts/fileutil"
 )
 
 type logMsg struct {
@@ -364,21 +363,21 @@ func (rf *rollingFile) eachLine(handler func(string) bool,
 	return broke
 }
 
-// search will look for a given text patterns to match a single line in the log
-// history
+// search will look for a line in the log history that is the record of the
+// file named by the first text pattern (the line starts with that name followed
+// by the field separator) and contains all the other patterns
 func (rf *rollingFile) search(text []string, start time.Time, stop time.Time) bool {
 	if len(text) == 0 {
 		return false
 	}
-	b := []byte(text[0])
-	var line string
-	return rf.each(func(path string) bool {
-		line = fileutil.FindLine(path, b)
-		if line == "" {
+	prefix := text[0] + ":"
+	return rf.eachLine(func(line string) bool {
+		if !strings.HasPrefix(line, prefix) {
 			return false
 		}
+		rest := line[len(text[0]):]
 		for _, t := range text[1:] {
-			if !strings.Contains(line, t) {
+			if !strings.Contains(rest, t) {
 				return false
 			}
 		}
